@@ -31,6 +31,7 @@ type OblResult struct {
 	Model   string   `json:"-"`
 	Output  string   `json:"-"`
 	query   string
+	witness []WitnessTerm
 }
 
 func (r *OblResult) FullName() string { return shortFunc(r.Func) + "/" + r.Name }
@@ -146,7 +147,7 @@ func cmdCheck(argv []string) int {
 			}
 			q := vc.QueryText(o)
 			n++
-			results = append(results, &OblResult{Func: o.Func, Name: o.Name, Kind: o.Kind, Tags: o.Tags, Src: o.Src, Where: o.Where, Expect: o.Expect, Bytes: len(q), query: q})
+			results = append(results, &OblResult{Func: o.Func, Name: o.Name, Kind: o.Kind, Tags: o.Tags, Src: o.Src, Where: o.Where, Expect: o.Expect, Bytes: len(q), query: q, witness: o.Witness})
 		}
 		if n == 0 {
 			rs.genErrs = append(rs.genErrs, "contract block of "+c.Key+" produced no obligation")
